@@ -31,6 +31,30 @@ META = {
                 text="C03's enumeration with every file's unsynced tail cut at enumerated lengths (fsync tracked at the os seam); "
                      "Open must succeed and every acknowledged commit must be visible.",
                 note=WHOLE + "; durability model: bytes beyond a file's last completed fsync may be lost as a suffix; directory operations ordered and durable"),
+    "C05": dict(engine="engine", design_ref="7 C05",
+                technique="deterministic simulation of concurrent clients; linearizability of snapshot-read/commit-write history (porcupine)",
+                text="Seeded exploration of interleavings of 2-4 clients with the background goroutines; each history is decided exactly "
+                     "(linearizability search), the space of histories is sampled.",
+                note=WHOLE + "; porcupine timeouts (20 s) are counted as inconclusive, never reported"),
+    "C06": dict(engine="engine", design_ref="7 C06",
+                technique="deterministic simulation of concurrent clients; strict serializability via porcupine on whole-transaction operations",
+                text="Same runs as C05 cut differently: committed and read-only transactions as atomic operations, linearizable iff strictly serializable.",
+                note=WHOLE + "; porcupine timeouts are inconclusive"),
+    "C07": dict(engine="engine", design_ref="7 C07",
+                technique="deterministic simulation; reference SSI model compared verdict by verdict (exact in op-atomic schedules)",
+                text="Both directions of the iff are decided exactly where API calls do not overlap (background goroutines still interleave); "
+                     "in overlapping schedules only verdicts that real time disambiguates are judged.",
+                note=WHOLE + "; key fingerprints are 64-bit hashes: a collision would be reported as a spurious conflict (not observed)"),
+    "C08": dict(engine="engine", design_ref="7 C08",
+                technique="deterministic simulation; map model ignoring abandoned transactions, unique values, documented-error table",
+                text="Seeded exploration of programs with discarded, failed and refused transactions and misuse calls, followed by "
+                     "rotations, flushes, compactions and restarts.",
+                note=WHOLE),
+    "C15": dict(engine="engine", design_ref="7 C15",
+                technique="deterministic simulation; exact deadlock detection by the scheduler, bounded-step liveness with fair tail",
+                text="The scheduler knows the state of every goroutine: an empty runnable set with an outstanding call is a deadlock, not a "
+                     "timeout; starvation is only reported after a fair round-robin tail.",
+                note=WHOLE + "; Close racing with in-flight client calls is not generated (the property does not promise anything for it)"),
 }
 
 NOT_APPLICABLE = [
